@@ -335,6 +335,18 @@ func with(gs []guard, more ...guard) []guard {
 	return append(n, more...)
 }
 
+// leavesClause: the clause body of a switch ends by leaving the enclosing function or loop iteration — a
+// plain `break` at its end only leaves the switch, so control does continue behind the switch.
+func leavesClause(list []ast.Stmt) bool {
+	if len(list) == 0 {
+		return false
+	}
+	if b, ok := list[len(list)-1].(*ast.BranchStmt); ok && b.Tok == token.BREAK && b.Label == nil {
+		return false
+	}
+	return terminates(list)
+}
+
 func terminates(list []ast.Stmt) bool {
 	if len(list) == 0 {
 		return false
@@ -373,7 +385,7 @@ func terminates(list []ast.Stmt) bool {
 			if cc.List == nil {
 				hasDefault = true
 			}
-			if !terminates(cc.Body) {
+			if !leavesClause(cc.Body) {
 				return false
 			}
 		}
@@ -507,6 +519,17 @@ func (x *Extractor) walkExpr(e ast.Node, c ctx) {
 			x.walkList(v.Body.List, c)
 			return false
 		case *ast.CallExpr:
+			// `each(coll, func(.., item T) {...})` helpers (formatting.Delimited and the like): the literal runs once
+			// per element of the slice argument whose element type is the literal's last parameter — a range loop
+			if cc, fl, ok := x.eachCallback(v, c); ok {
+				for _, a := range v.Args {
+					if ast.Unparen(a) != ast.Expr(fl) {
+						x.walkExpr(a, c)
+					}
+				}
+				x.walkList(fl.Body.List, cc)
+				return false
+			}
 			if x.emitCall(c, v) {
 				// still look for literals among the other arguments
 				for _, a := range v.Args {
@@ -531,6 +554,55 @@ func (x *Extractor) walkExpr(e ast.Node, c ctx) {
 		}
 		return true
 	})
+}
+
+// eachCallback recognises a call that hands a slice and a function literal taking one element of that slice
+// (as its last parameter) to a helper; the returned context is that of a `range` loop over the slice. A constant
+// string argument is recorded as the separator (row kind "sep").
+func (x *Extractor) eachCallback(call *ast.CallExpr, c ctx) (ctx, *ast.FuncLit, bool) {
+	var fl *ast.FuncLit
+	for _, a := range call.Args {
+		if l, ok := ast.Unparen(a).(*ast.FuncLit); ok {
+			if fl != nil {
+				return c, nil, false
+			}
+			fl = l
+		}
+	}
+	if fl == nil || fl.Type.Params == nil || len(fl.Type.Params.List) == 0 {
+		return c, nil, false
+	}
+	last := fl.Type.Params.List[len(fl.Type.Params.List)-1]
+	lt := x.Info.TypeOf(last.Type)
+	if lt == nil {
+		return c, nil, false
+	}
+	for _, a := range call.Args {
+		t := x.Info.TypeOf(a)
+		if t == nil {
+			continue
+		}
+		sl, ok := t.Underlying().(*types.Slice)
+		if !ok || !types.Identical(sl.Elem(), lt) {
+			continue
+		}
+		cc := c
+		cc.loops = append(append([]string(nil), c.loops...), "range "+x.Canon(a))
+		ix := ""
+		for _, f := range fl.Type.Params.List {
+			if bt, ok := x.Info.TypeOf(f.Type).(*types.Basic); ok && bt.Kind() == types.Int && len(f.Names) == 1 && f.Names[0].Name != "_" {
+				ix = f.Names[0].Name
+			}
+		}
+		cc.loopIx = append(append([]string(nil), c.loopIx...), ix)
+		for _, b := range call.Args {
+			if tv, ok := x.Info.Types[b]; ok && tv.Value != nil && tv.Value.Kind() == constant.String {
+				x.add(cc, "sep", constant.StringVal(tv.Value), nil, b.Pos())
+			}
+		}
+		return cc, fl, true
+	}
+	return c, nil, false
 }
 
 func (x *Extractor) walkList(list []ast.Stmt, c ctx) ctx {
@@ -606,8 +678,9 @@ func (x *Extractor) walkStmt(s ast.Stmt, c ctx) ctx {
 			cc2 := c
 			cc2.gs = with(c.gs, x.caseLabel(subj, cc, all))
 			x.walkList(cc.Body, cc2)
-			// control that continues behind the switch did not take a clause that leaves
-			if cc.List != nil && terminates(cc.Body) {
+			// control that continues behind the switch did not take a clause that leaves (the default included:
+			// then one of the listed cases was taken)
+			if leavesClause(cc.Body) && (cc.List != nil || len(all) > 1) {
 				g := x.caseLabel(subj, cc, all)
 				g.neg = !g.neg
 				after.gs = with(after.gs, g)
@@ -663,7 +736,7 @@ func (x *Extractor) walkStmt(s ast.Stmt, c ctx) ctx {
 				// control continues only if no condition held
 				condsLeave := true
 				for _, cl := range st.Body.List {
-					if cc := cl.(*ast.CaseClause); cc.List != nil && !terminates(cc.Body) {
+					if cc := cl.(*ast.CaseClause); cc.List != nil && !leavesClause(cc.Body) {
 						condsLeave = false
 					}
 				}
@@ -681,7 +754,7 @@ func (x *Extractor) walkStmt(s ast.Stmt, c ctx) ctx {
 			cc2 := c
 			cc2.gs = with(c.gs, x.caseLabel(subj, cc, all))
 			x.walkList(cc.Body, cc2)
-			if cc.List != nil && terminates(cc.Body) {
+			if leavesClause(cc.Body) && (cc.List != nil || len(all) > 1) {
 				g := x.caseLabel(subj, cc, all)
 				g.neg = !g.neg
 				after.gs = with(after.gs, g)
